@@ -100,9 +100,9 @@ const M: usize = 11; const X: usize = 12; const ADM: usize = 13;
 const NADDR: usize = 14;
 const TOKENS: [usize; 3] = [T1, T2, T3];
 const TARGETS: [usize; 2] = [TA, TB];
-const HOLDERS: [usize; 8] = [U1, U2, R1, R2, M, X, FP, FL];
-const OWNERS: [usize; 4] = [U1, U2, R1, R2];
-const SPENDERS: [usize; 2] = [FP, FL];
+const HOLDERS: [usize; 11] = [U1, U2, R1, R2, M, X, FP, FL, ADM, TA, TB];
+const OWNERS: [usize; 7] = [U1, U2, R1, R2, M, X, ADM];
+const SPENDERS: [usize; 3] = [FP, FL, X];
 const CANDS: [usize; 4] = [T1, T2, T3, X];
 const EXECUTORS: [usize; 2] = [R1, U2];
 const MANAGERS: [usize; 1] = [M];
@@ -117,10 +117,10 @@ const HOST_B: (u32, u32, u32) = (16, 4096, 6_312_000);
 const LONG_GAPS: [u32; 6] = [20, 100, 17_281, 20_000, 600_000, 4_000_000];
 
 const F_HIT: u32 = 1; const F_BOOM: u32 = 2; const F_AUTH: u32 = 3; const F_NOPE: u32 = 4;
-const F_PULL: u32 = 5; const F_APPROVE_FOR: u32 = 6; const F_REENTER: u32 = 7;
+const F_PULL: u32 = 5; const F_APPROVE_FOR: u32 = 6; const F_REENTER: u32 = 7; const F_TRANSFER_FROM: u32 = 15; const F_TRANSFER: u32 = 16;
 const F_FORWARD: u32 = 10; const F_APPROVE: u32 = 11; const F_ENABLE: u32 = 12; const F_DISABLE: u32 = 13; const F_SWEEP: u32 = 14;
 fn fname(f: u32) -> &'static str {
-    match f { 1 => "hit", 2 => "boom", 3 => "auth_hit", 4 => "nope", 5 => "pull", 6 => "approve_for", 7 => "reenter", 15 => "transfer_from", 10 => "forward", 11 => "approve",
+    match f { 1 => "hit", 2 => "boom", 3 => "auth_hit", 4 => "nope", 5 => "pull", 6 => "approve_for", 7 => "reenter", 15 => "transfer_from", 16 => "transfer", 10 => "forward", 11 => "approve",
               12 => "enable_fee_token", 13 => "disable_fee_token", 14 => "sweep_tokens", _ => "zzz" }
 }
 
@@ -337,7 +337,7 @@ impl World {
                 } else {
                     pl::contract::FeeForwarderClient::new(&e, &self.addr[FL]).try_forward(&self.addr[*tok], fee, max, exp, &self.addr[*target], &fnm, &av, &self.addr[*user], &self.addr[*relayer])
                 };
-                match r { Ok(Ok(v)) => Some(i128::try_from_val(&e, &v).unwrap_or(-999)), _ => None }
+                match r { Ok(Ok(v)) => Some(if v.is_void() { 0 } else { i128::try_from_val(&e, &v).unwrap_or(-999) }), _ => None }
             }
             Call::SetTok { allowed, tok, operator, au } => {
                 self.set_auths(au);
@@ -365,7 +365,9 @@ impl World {
             Call::Forward { pd: true, .. } => "forward_pd", Call::Forward { pd: false, .. } => "forward_pl",
             Call::SetTok { allowed: true, .. } => "enable", Call::SetTok { allowed: false, .. } => "disable", Call::Sweep { .. } => "sweep" };
         out.case(&format!("{}/{}", kind, oc), &text);
-        for t in tags { out.label(&format!("{}/{}", t, oc)); }
+        // every scenario label of a forward carries the forwarder kind (= approval strategy): pd = permissioned / lazy, pl = permissionless / eager
+        let pfx = match c { Call::Forward { pd: true, .. } => "pd:", Call::Forward { pd: false, .. } => "pl:", _ => "" };
+        for t in tags { out.label(&format!("{}{}/{}", pfx, t, oc)); }
         let res = match r { Some(v) => format!("Ok {}", z(v)), None => "(@Fail Z)".into() };
         self.items.push(format!("({}, {}, {})", text, res, self.obs.coq()));
         r
@@ -408,6 +410,14 @@ impl Fwd {
                 if *who == self.user { usr.subs.push(tf); }
                 else if *who == self.relayer { rel.subs.push(tf); }
                 else if SIGNERS.contains(who) { extra.push(Entry { who: *who, root: tf, subs: vec![] }); }
+            }
+        }
+        if self.f == F_TRANSFER && TOKENS.contains(&self.target) {
+            if let Some(At::A(from)) = self.args.first() {
+                let tf = Func { c: self.target, f: F_TRANSFER, args: self.args.iter().map(at_to_v).collect() };
+                if *from == self.user { usr.subs.push(tf); }
+                else if *from == self.relayer { rel.subs.push(tf); }
+                else if SIGNERS.contains(from) { extra.push(Entry { who: *from, root: tf, subs: vec![] }); }
             }
         }
         let mut v = vec![];
@@ -512,7 +522,8 @@ impl Gen {
         for &t in &ok_toks { for &u in &[U1, U2, R1, R2] { if w.obs.bal(t, u) > 0 { funded.push((t, u)); } } }
         let (tok, user) = if !funded.is_empty() && rng.chance(9, 10) { *rng.pick(&funded) }
                           else { (*rng.pick(&TOKENS), *rng.pick(&[U1, U2, R1])) };
-        let relayer = if pd { if rng.chance(4, 5) { R1 } else { U2 } } else { *rng.pick(&[R1, R2, U2, X]) };
+        // (user = relayer is a perturbation of its own: it makes the permissionless debit / credit degenerate)
+        let relayer = if pd { if user != R1 && rng.chance(4, 5) { R1 } else if user != U2 { U2 } else { R1 } } else { other_of(rng, &[R1, R2, U2, X], user) };
         let bal = w.obs.bal(tok, user);
         let cap = if bal > 0 { bal.min(1 << 60) } else { 400 };
         let fee = if rng.chance(1, 6) { 1 + rng.below(cap as u64) as i128 } else { 1 + rng.below(cap.min(60) as u64) as i128 };
@@ -538,7 +549,7 @@ impl Gen {
             let fw = fwd_addr(f.pd);
             let (a0, _l0) = w.obs.alw(f.tok, f.user, fw);
             let bal = w.obs.bal(f.tok, f.user);
-            match rng.below(42) {
+            match rng.below(48) {
                 0 => { f.fee = 0; tags.push("fee:zero".into()); }
                 1 => { f.fee = -(1 + rng.below(5) as i128); tags.push("fee:negative".into()); }
                 2 => { f.fee = f.max.saturating_add(1); tags.push("fee:max+1".into()); }
@@ -580,11 +591,24 @@ impl Gen {
                         f.f = F_PULL; f.args = vec![At::A(f.tok), At::A(sp), At::A(f.user), At::A(*rng.pick(&[X, R2, TA])), At::I(amt), At::I(sw)];
                         tags.push(if sw == 0 { "target:pull-remaining-propagate".into() } else { "target:pull-remaining-swallow".into() }); }
                 36 | 37 => { let sw = rng.below(2) as i128;
-                        f.f = F_APPROVE_FOR; f.args = vec![At::A(f.tok), At::A(f.user), At::A(*rng.pick(&[X, R2, TA])), At::I(1 + rng.below(1000) as i128), At::I((now + 100) as i128), At::I(sw)];
+                        f.f = F_APPROVE_FOR; f.args = vec![At::A(f.tok), At::A(f.user), At::A(X), At::I(1 + rng.below(1000) as i128), At::I((now + 100) as i128), At::I(sw)];
                         tags.push(if sw == 0 { "target:approve-nobody-propagate".into() } else { "target:approve-nobody-swallow".into() }); }
                 38 | 39 => { let sw = rng.below(2) as i128; let fwd = if rng.chance(2, 3) { fw } else { fwd_addr(!f.pd) };
                         f.f = F_REENTER; f.args = vec![At::A(fwd), At::I(sw)];
                         tags.push(if sw == 0 { "target:reenter-propagate".into() } else { "target:reenter-swallow".into() }); }
+                // the target is the fee token itself: the forwarder is made to spend the user's residual allowance / its own funds
+                42 | 43 => { let left = if f.pd && a0 >= f.max { a0 - f.fee } else { f.max - f.fee };
+                        let amt = match rng.below(4) { 0 => left.saturating_add(1), 1 => 1.min(left), 2 => 0, _ => left };
+                        f.target = f.tok; f.f = F_TRANSFER_FROM; f.args = vec![At::A(fw), At::A(f.user), At::A(*rng.pick(&[X, R2, TA])), At::I(amt)];
+                        tags.push("target:token-transfer-from-residual".into()); }
+                44 => { let fb = w.obs.bal(f.tok, fw) + if f.pd { f.fee } else { 0 };
+                        f.target = f.tok; f.f = F_TRANSFER; f.args = vec![At::A(fw), At::A(X), At::I(if rng.chance(1, 3) { fb.saturating_add(1) } else { fb })];
+                        tags.push("target:token-transfer-forwarder-funds".into()); }
+                45 => { f.target = f.tok; f.f = F_TRANSFER; f.args = vec![At::A(f.user), At::A(X), At::I(1 + rng.below(20) as i128)];
+                        tags.push("target:token-transfer-user-signed".into()); }
+                46 => { let other = other_of(rng, &TOKENS, f.tok);
+                        f.target = other; f.f = F_TRANSFER_FROM; f.args = vec![At::A(fw), At::A(f.user), At::A(X), At::I(1)];
+                        tags.push("target:other-token-transfer-from".into()); }
                 // the fee exceeds the authorised maximum although the existing allowance would cover it
                 _ => { if a0 > 2 { f.max = a0 - 2; f.fee = a0 - rng.below(2) as i128; } else { f.fee = f.max.saturating_add(1); }
                        tags.push("fee:gt-max-within-allowance".into()); }
@@ -611,7 +635,7 @@ impl Gen {
         let now = w.obs.now;
         let tok = if rng.chance(1, 25) { X } else { *rng.pick(&TOKENS) };
         let owner = *rng.pick(&OWNERS);
-        let spender = if rng.chance(9, 10) { *rng.pick(&SPENDERS) } else { *rng.pick(&[R1, X]) };
+        let spender = *rng.pick(&SPENDERS);
         let amt = match rng.below(8) { 0 => 0, 1 => -1, 2 => i128::MAX, _ => rng.range(1, 500) as i128 };
         let exp = match rng.below(10) { 0 => now.wrapping_sub(1), 1 => now, 2 => now + w.max_ttl - 1, 3 => now + w.max_ttl, 4 => 0, 5 => now + *rng.pick(&[20_000u32, 700_000, 4_500_000]), _ => now + rng.below(60) as u32 };
         let mut au = vec![Entry { who: owner, root: approve_fn(tok, owner, spender, amt, exp), subs: vec![] }];
@@ -837,6 +861,72 @@ fn corpus(out: &mut Out) {
         }
         w.run(out, &base.call(base.good_auths()), &t("corpus:good"));
         w.finish(out, "corpus-reentrant-targets");
+    }
+    // 3f. the TARGET IS A FEE TOKEN: the user signs forward(.., target = token, fn, args) and the forwarder - the direct
+    //     invoker of the token - spends the residual allowance the fee collection has just left in place (eager: max - fee,
+    //     lazy: old - fee), or its own funds
+    for pd in [true, false] {
+        let mut w = World::new();
+        let fw = fwd_addr(pd);
+        w.run(out, &Call::Mint { tok: T1, to: U1, amt: 1000 }, &[]);
+        w.run(out, &Call::Mint { tok: T1, to: fw, amt: 40 }, &[]);
+        w.run(out, &Call::Mint { tok: T2, to: U1, amt: 1000 }, &[]);
+        if pd { w.run(out, &Call::Approve { tok: T1, owner: U1, spender: fw, amt: 400, exp: START + 500, au: owner_auth(T1, U1, fw, 400, START + 500) }, &[]); }
+        let base = Fwd { pd, tok: T1, fee: 10, max: 60, exp: START + 30, target: T1, f: F_TRANSFER_FROM, args: vec![], user: U1, relayer: R1 };
+        // what is left for the forwarder to spend during the call: eager 60 - 10 = 50; lazy 400 - 10 = 390 (then 390 - 390 - 10 ...)
+        let left = if pd { 390 } else { 50 };
+        let g = Fwd { args: vec![At::A(fw), At::A(U1), At::A(X), At::I(left + 1)], ..base.clone() };
+        w.run(out, &g.call(g.good_auths()), &t("corpus:token-target-drain-more-than-residual"));
+        let g = Fwd { args: vec![At::A(fw), At::A(U1), At::A(X), At::I(0)], ..base.clone() };
+        w.run(out, &g.call(g.good_auths()), &t("corpus:token-target-drain-zero"));
+        let left = if pd { 380 } else { 50 };
+        let g = Fwd { args: vec![At::A(fw), At::A(U1), At::A(X), At::I(left)], ..base.clone() };
+        // the relayer cannot substitute its own drain: the user signed other args
+        let h = Fwd { args: vec![At::A(fw), At::A(U1), At::A(R1), At::I(left)], ..base.clone() };
+        let mut au = h.good_auths(); let ui = au.iter().position(|e| e.who == U1).unwrap(); au[ui] = g.good_auths().into_iter().find(|e| e.who == U1).unwrap();
+        w.run(out, &h.call(au), &t("corpus:token-target-drain-args-not-signed"));
+        w.run(out, &g.call(g.good_auths()), &t("corpus:token-target-drain-residual"));
+        // another fee token as target: the forwarder has no allowance there
+        let g = Fwd { target: T2, args: vec![At::A(fw), At::A(U1), At::A(X), At::I(1)], ..base.clone() };
+        w.run(out, &g.call(g.good_auths()), &t("corpus:token-target-other-token"));
+        // spender other than the forwarder: needs that spender's own authorisation
+        let g = Fwd { args: vec![At::A(X), At::A(U1), At::A(X), At::I(1)], ..base.clone() };
+        w.run(out, &g.call(g.good_auths()), &t("corpus:token-target-other-spender-unauth"));
+        // the forwarder's own funds (collected fees): transfer(forwarder, X, all)
+        let fb = w.obs.bal(T1, fw) + if pd { 10 } else { 0 };
+        let g = Fwd { f: F_TRANSFER, args: vec![At::A(fw), At::A(X), At::I(fb + 1)], ..base.clone() };
+        w.run(out, &g.call(g.good_auths()), &t("corpus:token-target-forwarder-funds-too-much"));
+        let g = Fwd { f: F_TRANSFER, args: vec![At::A(fw), At::A(X), At::I(fb)], ..base.clone() };
+        w.run(out, &g.call(g.good_auths()), &t("corpus:token-target-forwarder-funds"));
+        // a plain transfer of the user's tokens: with / without the user's sub-invocation for it
+        let g = Fwd { f: F_TRANSFER, args: vec![At::A(U1), At::A(X), At::I(7)], ..base.clone() };
+        let mut au = g.good_auths(); for en in au.iter_mut() { en.subs.retain(|s| s.f != F_TRANSFER); }
+        w.run(out, &g.call(au), &t("corpus:token-target-user-transfer-unauth"));
+        w.run(out, &g.call(g.good_auths()), &t("corpus:token-target-user-transfer"));
+        w.finish(out, "corpus-token-as-target");
+    }
+    // 3g. lazy flow after a previously SUFFICIENT allowance has expired: falls back to a fresh, authorised approval
+    for pd in [true, false] {
+        let mut w = World::new();
+        let fw = fwd_addr(pd);
+        w.run(out, &Call::Mint { tok: T1, to: U1, amt: 1000 }, &[]);
+        w.run(out, &Call::Approve { tok: T1, owner: U1, spender: fw, amt: 500, exp: START + 10, au: owner_auth(T1, U1, fw, 500, START + 10) }, &[]);
+        let f = Fwd { pd, tok: T1, fee: 5, max: 50, exp: START + 100, target: TA, f: F_HIT, args: vec![At::I(1)], user: U1, relayer: R1 };
+        let mut nosub = f.good_auths(); for en in nosub.iter_mut() { en.subs.clear(); }
+        w.run(out, &f.call(nosub.clone()), &t("corpus:sufficient-allowance-live-nosub"));
+        w.run(out, &Call::Advance(11), &[]);
+        w.run(out, &f.call(nosub.clone()), &t("corpus:sufficient-allowance-expired-nosub"));
+        w.run(out, &f.call(f.good_auths()), &t("corpus:sufficient-allowance-expired"));
+        w.run(out, &f.call(nosub), &t("corpus:fresh-allowance-then-nosub"));
+        w.finish(out, "corpus-lazy-allowance-expired");
+    }
+    // 3h. three listed tokens, remove the first / the middle / the last (swap-and-pop at every position)
+    for k in 0..3usize {
+        let mut w = World::new();
+        for tk in TOKENS { w.run(out, &Call::SetTok { allowed: true, tok: tk, operator: M, au: manager_auth(true, tk) }, &[]); }
+        w.run(out, &Call::SetTok { allowed: false, tok: TOKENS[k], operator: M, au: manager_auth(false, TOKENS[k]) }, &t(&format!("corpus:three-listed-remove-{}", k)));
+        for tk in TOKENS { w.run(out, &Call::SetTok { allowed: false, tok: tk, operator: M, au: manager_auth(false, tk) }, &[]); }
+        w.finish(out, "corpus-three-listed");
     }
     // 3d. persistence: every kind of stored item must survive ONE long ledger advance during which nobody reads it
     //     (balances, supply, allow-list count / entries / indices, roles, target logs; allowances up to live_until)
